@@ -6,3 +6,5 @@ git -C /repo worktree add --detach $WT HEAD >/dev/null 2>&1 || exit 2
 trap 'git -C /repo worktree remove --force '$WT' >/dev/null 2>&1' EXIT INT TERM
 git -C $WT apply "/verif/seeded/$S/patch.diff" || { echo "patch does not apply"; exit 2; }
 cd /verif && VERIF_REPO=$WT ./check "$P" --tier "$T" 2>&1 | grep -E "^(OK|VIOLATION|KNOWN|#)" | cut -c1-300 | head -12
+# generated constant files are shared with checks of the unchanged tree: put back what this run regenerated from the seed tree
+for g in $(git -C /verif status --short coq | awk '$1=="M" && $2 ~ /Gen[A-Za-z0-9]*\.v$/ {print $2}'); do git -C /verif checkout -- "$g"; done
